@@ -248,3 +248,196 @@ Fixpoint evs_eqb (a b : list ev) : bool :=
   end.
 Fixpoint count_AS (tr : list ev) : nat :=
   match tr with [] => O | AS :: r => S (count_AS r) | _ :: r => count_AS r end.
+
+(** ** An explicit debugger object (C19: "attaching a debugger never changes the verdict", for EVERY debugger).
+
+    A debugger is a value of any type [D] with one method: it is handed the callback and the snapshot current at
+    that callback (thread.State(): copies of the two stacks) and returns its new self.  It is THREADED through the run
+    below: the hooks are called where thread.go calls them, between the instructions, and everything the machine does
+    afterwards is computed in the presence of the debugger's state.
+
+    The run is written once, over an arbitrary "emit" function [em : ev -> st -> D -> D] on machine states
+    ([engine_execute_em]); a debugger is the instance that sees only the snapshot of the state
+    ([engine_execute_with]); the instance that records the states themselves ([engine_states]) is the whole-run
+    trace used for statements about every step of a run.
+
+    States shown at the callbacks: BeforeStep / BeforeExecuteOpcode: the state the instruction starts from;
+    AfterExecuteOpcode / AfterStep: the state it produced; BeforeScriptChange: after the alt stack was dropped;
+    AfterScriptChange: after shiftScript's resets; AfterExecute: the last state; AfterSuccess / AfterError after
+    CheckErrorCondition: with the result item popped (PopBool).  After a FAILING instruction the Go handlers may
+    already have consumed operands ("the result of calling Step or any other method is undefined if an error is
+    returned"); the model has no state for a failed instruction and shows the state the instruction started from.
+    The theorems quantify over all debuggers, so they do not depend on this choice. *)
+Record debugger (D : Type) := mkDebugger { on_event : D -> ev -> snapshot -> D }.
+Arguments on_event {D} _ _ _ _.
+Arguments mkDebugger {D} _.
+
+(** the data stack after CheckErrorCondition(final): the result item is popped unless the check failed before *)
+Definition after_cec (c : ctx) (final : bool) (s : st) : st :=
+  match ds s with
+  | [] => s
+  | t :: r => if final && has_flag c F_CLEANSTACK && negb (Nat.eqb (length (ds s)) 1) then s else set_ds s r
+  end.
+
+Section Em.
+  Context {D : Type} (em : ev -> st -> D -> D).
+
+  (** [run_ops] with the hooks; also returns the last state the model has, for the callbacks after an error *)
+  Fixpoint run_ops_em (so : sigops) (c : ctx) (ops : list pop) (idx : nat) (s : st) (acc : list snapshot) (d : D)
+    : script_end * list snapshot * (st * D) :=
+    match ops with
+    | [] => (SEnd s, acc, (s, d))
+    | p :: rest =>
+        let d1 := em BO s (em BS s d) in
+        match execute_opcode so c p idx s with
+        | OErr => (SErr, acc, (s, d1))
+        | OPanic => (SPanic, acc, (s, d1))
+        | OReturn s' => (SReturn s', acc, (s', d1))
+        | OOk s' =>
+            let d2 := em AO s' d1 in
+            if max_stack c <? lenZ (ds s') + lenZ (als s') then (SErr, acc, (s', d2))
+            else match rest with
+                 | [] => (SEnd s', acc, (s', d2))
+                 | _ => run_ops_em so c rest (S idx) s' (snap s' :: acc) (em AS s' d2)
+                 end
+        end
+    end.
+
+  (** [s]: the final state (the last AfterStep was taken of it) *)
+  Definition finish_em (c : ctx) (s : st) (acc : list snapshot) (d : D) : verdict * list snapshot * D :=
+    let d1 := em AE s d in
+    if check_error_condition c true (ds s) then (VOk, rev acc, em EOK (after_cec c true s) d1)
+    else (VErr, rev acc, em EER (after_cec c true s) d1).
+  Definition err_em (s : st) (acc : list snapshot) (d : D) : verdict * list snapshot * D :=
+    (VErr, rev acc, em EER s (em AE s d)).
+  Definition panic_em (s : st) (acc : list snapshot) (d : D) : verdict * list snapshot * D :=
+    (VPanic, rev acc, em AE s d).
+
+  (** the script change at the end of a script ([s]: conditionals balanced, alt stack dropped) *)
+  Definition change_em (s s' : st) (d : D) : D := em AC s' (em BC s d).
+
+  (** [s]: the state the locking script ended in, alt stack dropped, before shiftScript (BC / AC already fired) *)
+  Definition run_redeem_em (so : sigops) (c : ctx) (saved : list bytes) (s : st) (acc : list snapshot) (d : D)
+    : verdict * list snapshot * D :=
+    let sh := after_cec c false (shift_script s []) in
+    if negb (check_error_condition c false (ds s)) then err_em sh acc d
+    else match saved with
+         | [] => panic_em sh acc d
+         | script :: below =>
+             match parse_script (c_err_on_checksig c) script with
+             | None => err_em sh acc d
+             | Some ops =>
+                 let s' := set_ds (shift_script s ops) below in
+                 match ops with
+                 | [] => finish_em c s' (snap s' :: acc) (em AS s' d)
+                 | _ =>
+                     match run_ops_em so c ops 0 s' (snap s' :: acc) (em AS s' d) with
+                     | (SErr, acc', (sl, d')) => err_em sl acc' d'
+                     | (SPanic, acc', (sl, d')) => panic_em sl acc' d'
+                     | (SReturn s2, acc', (_, d')) =>
+                         let s4 := shift_script (set_als s2 []) [] in
+                         finish_em c s4 (snap s4 :: acc') (em AS s4 (change_em (set_als s2 []) s4 d'))
+                     | (SEnd s2, acc', (_, d')) =>
+                         match end_script s2 with
+                         | None => err_em s2 acc' d'
+                         | Some s3 =>
+                             let s4 := shift_script s3 [] in
+                             finish_em c s4 (snap s4 :: acc') (em AS s4 (change_em s3 s4 d'))
+                         end
+                     end
+                 end
+             end
+         end.
+
+  Definition run_lock_em (so : sigops) (c : ctx) (bip16 : bool) (saved : list bytes) (lock : list pop)
+      (s : st) (acc : list snapshot) (d : D) : verdict * list snapshot * D :=
+    match run_ops_em so c lock 0 s acc d with
+    | (SErr, acc', (sl, d')) => err_em sl acc' d'
+    | (SPanic, acc', (sl, d')) => panic_em sl acc' d'
+    | (SReturn s2, acc', (_, d')) =>
+        let s4 := shift_script (set_als s2 []) [] in
+        finish_em c s4 (snap s4 :: acc') (em AS s4 (change_em (set_als s2 []) s4 d'))
+    | (SEnd s2, acc', (_, d')) =>
+        match end_script s2 with
+        | None => err_em s2 acc' d'
+        | Some s3 =>
+            let s4 := shift_script s3 [] in
+            if bip16 && negb (after_genesis c) then run_redeem_em so c saved s3 acc' (change_em s3 s4 d')
+            else finish_em c s4 (snap s4 :: acc') (em AS s4 (change_em s3 s4 d'))
+        end
+    end.
+
+  Definition execute_em (so : sigops) (c : ctx) (bip16 : bool) (unlock lock : list pop) (d : D)
+    : verdict * list snapshot * D :=
+    match unlock with
+    | [] =>
+        match lock with
+        | [] => (VErr, [], d)                                  (* rejected by apply: no thread, no callbacks *)
+        | _ => run_lock_em so c bip16 [] lock (init_st lock) [] (em BE (init_st lock) d)
+        end
+    | _ =>
+        match run_ops_em so c unlock 0 (init_st unlock) [] (em BE (init_st unlock) d) with
+        | (SErr, acc, (sl, d')) => err_em sl acc d'
+        | (SPanic, acc, (sl, d')) => panic_em sl acc d'
+        | (SReturn s1, acc, (_, d')) =>
+            let s2 := shift_script (set_als s1 []) lock in
+            let d2 := em AS s2 (change_em (set_als s1 []) s2 d') in
+            match lock with
+            | [] => finish_em c s2 (snap s2 :: acc) d2
+            | _ => run_lock_em so c bip16 [] lock s2 (snap s2 :: acc) d2
+            end
+        | (SEnd s1, acc, (_, d')) =>
+            match end_script s1 with
+            | None => err_em s1 acc d'
+            | Some s2 =>
+                let s3 := shift_script s2 lock in
+                let d2 := em AS s3 (change_em s2 s3 d') in
+                match lock with
+                | [] => finish_em c s3 (snap s3 :: acc) d2
+                | _ => run_lock_em so c bip16 (ds s3) lock s3 (snap s3 :: acc) d2
+                end
+            end
+        end
+    end.
+
+  Definition engine_execute_em (so : sigops) (i : exec_input) (d : D) : verdict * list snapshot * D :=
+    let flags := normalise_flags (ei_flags i) in
+    let c := mkCtx flags (ei_has_tx i) (ei_tx_lock i) (ei_tx_version i) (ei_in_seq i)
+                   (negb (ei_has_tx i) || negb (ei_has_prevout i)) in
+    match ei_unlock i, ei_lock i with
+    | [], [] => (VErr, [], d)
+    | _, _ =>
+        if has_flag c F_CLEANSTACK && negb (has_flag c F_BIP16) then (VErr, [], d)
+        else if (max_script_size c <? lenZ (ei_unlock i)) || (max_script_size c <? lenZ (ei_lock i)) then (VErr, [], d)
+        else
+          match parse_script (c_err_on_checksig c) (ei_unlock i) with
+          | None => (VErr, [], d)
+          | Some u =>
+              match parse_script (c_err_on_checksig c) (ei_lock i) with
+              | None => (VErr, [], d)
+              | Some l =>
+                  if has_flag c F_SIGPUSHONLY && negb (is_push_only u) then (VErr, [], d)
+                  else
+                    let p2sh := has_flag c F_BIP16 && negb (after_genesis c) && is_p2sh (ei_lock i) in
+                    if p2sh && negb (is_push_only u) then (VErr, [], d)
+                    else execute_em so c p2sh u l d
+              end
+          end
+    end.
+End Em.
+
+(** the run with a debugger attached: it is shown the snapshot of the state at each callback *)
+Definition engine_execute_with {D : Type} (dbg : debugger D) (d0 : D) (so : sigops) (i : exec_input)
+  : verdict * list snapshot * D :=
+  engine_execute_em (fun e s d => on_event dbg d e (snap s)) so i d0.
+
+(** the debugger that writes everything down; with states instead of snapshots: the whole-run trace *)
+Definition record {V : Type} (view : st -> V) : ev -> st -> list (ev * V) -> list (ev * V) :=
+  fun e s l => l ++ [(e, view s)].
+Definition recorder : debugger (list (ev * snapshot)) := mkDebugger (fun l e sn => l ++ [(e, sn)]).
+Definition engine_states (so : sigops) (i : exec_input) : list (ev * st) :=
+  snd (engine_execute_em (record (fun s => s)) so i []).
+
+(** a recorded trace shown to a debugger, one callback after the other *)
+Definition replay {D V : Type} (f : D -> ev -> V -> D) (tr : list (ev * V)) (d : D) : D :=
+  fold_left (fun d es => f d (fst es) (snd es)) tr d.
